@@ -181,3 +181,26 @@ def namespace_variants(n, full=True):
     use2 = [l for l in LABELS[:n + 2] if l != mid][:n]
     out.append(({"total": n + 2, "removed": [mid], "order": "asis"}, use2))               # hole in the middle, one spare at the top
     return out
+
+
+class Reporter(object):
+    """ctx.fail with a cap on *new* violations written per monitor name (a broken build can
+    fail on every input; twenty replayable witnesses per monitor are enough, the rest is
+    counted in a note).  Known findings are never capped."""
+
+    def __init__(self, ctx, cap=20):
+        self.ctx = ctx
+        self.cap = cap
+        self.n = {}
+        self.skipped = {}
+
+    def fail(self, name, witness, detail=None):
+        if self.n.get(name, 0) >= self.cap:
+            self.skipped[name] = self.skipped.get(name, 0) + 1
+            return
+        if self.ctx.fail(name, witness, detail=detail):
+            self.n[name] = self.n.get(name, 0) + 1
+
+    def close(self):
+        for name, k in sorted(self.skipped.items()):
+            self.ctx.note("%s: %d further failing inputs not written (cap %d per monitor)" % (name, k, self.cap))
